@@ -160,9 +160,35 @@ func driveC20Basic(t *testing.T, out *vEmitter) {
 			}
 		}(v)
 	}
-	time.Sleep(dur)
+	// watchdog: validations and reloads keep completing; if both counters stand still the goroutines are stuck on the
+	// lock (a deadlock cannot be waited out: report it and end the driver)
+	deadlocked := func(c, p int64, stalled time.Duration) {
+		out.Violation("reload/deadlock", "validations and reloads stopped completing: the goroutines are blocked on the credential map's lock",
+			map[string]interface{}{"validations_completed": c, "reloads_completed": p, "stalled_for_s": int(stalled.Seconds()),
+				"validators": nValidators, "reloaders": nReloaders})
+		out.Stat("htpasswd_deadlock", 1)
+		out.Close()
+		os.Exit(0)
+	}
+	end := time.Now().Add(dur)
+	lastC, lastP, lastMove := int64(-1), int64(-1), time.Now()
+	for time.Now().Before(end) {
+		time.Sleep(100 * time.Millisecond)
+		c, p := atomic.LoadInt64(&checks), atomic.LoadInt64(&published)
+		if c != lastC || p != lastP {
+			lastC, lastP, lastMove = c, p, time.Now()
+		} else if time.Since(lastMove) > 8*time.Second {
+			deadlocked(c, p, time.Since(lastMove))
+		}
+	}
 	close(stop)
-	wg.Wait()
+	finished := make(chan struct{})
+	go func() { wg.Wait(); close(finished) }()
+	select {
+	case <-finished:
+	case <-time.After(20 * time.Second):
+		deadlocked(atomic.LoadInt64(&checks), atomic.LoadInt64(&published), time.Since(lastMove))
+	}
 	// visibility: after the last reload completed every validation reflects the final contents
 	mu.Lock()
 	final := vEffectiveOf(seq, versions)
